@@ -28,7 +28,7 @@ structure DEnt where
   name : Bytes
   deriving Repr, DecidableEq
 
-/-- `(sqfs_s32)(a - b)` for `sqfs_u32 a, b` (dir_writer.c:233) -/
+/-- `(sqfs_s32)(a - b)` for `sqfs_u32 a, b` (dir_writer.c:237) -/
 def sdiff32 (a b : Nat) : Int :=
   let d := (a + 4294967296 - b % 4294967296) % 4294967296
   if d < 2147483648 then (d : Int) else (d : Int) - 4294967296
@@ -36,16 +36,16 @@ def sdiff32 (a b : Nat) : Int :=
 def entSize (e : DEnt) : Nat := sizeofDirNode + e.name.length
 
 /--
-The `for` loop of `get_conseq_entry_count` (dir_writer.c:229-247) with `head` fixed:
+The `for` loop of `get_conseq_entry_count` (dir_writer.c:233-251) with `head` fixed:
 `hblk = head->inode_ref >> 16`, `hnum = head->inode_num`; `size`/`count` are the loop variables.
 -/
 def conseqGo (hblk hnum : Nat) : (size count : Nat) → List DEnt → Nat
   | _, count, [] => count
   | size, count, it :: rest =>
-    if it.inodeRef >>> 16 ≠ hblk then count                          -- :230
-    else if sdiff32 it.inodeNum hnum > 32767 ∨ sdiff32 it.inodeNum hnum < -32767 then count   -- :235
-    else if count > 0 ∧ size + entSize it > metaBlockSize then count   -- :238-241
-    else if count + 1 = maxDirEnt then count + 1                       -- :243-246
+    if it.inodeRef >>> 16 ≠ hblk then count                          -- :234
+    else if sdiff32 it.inodeNum hnum > 32767 ∨ sdiff32 it.inodeNum hnum < -32767 then count   -- :239
+    else if count > 0 ∧ size + entSize it > metaBlockSize then count   -- :242-245
+    else if count + 1 = maxDirEnt then count + 1                       -- :247-250
     else conseqGo hblk hnum (size + entSize it) (count + 1) rest
 
 /-- `get_conseq_entry_count(offset, head)` -/
@@ -138,7 +138,7 @@ inductive AddResult where
   | argInvalid           -- SQFS_ERROR_ARG_INVALID
   deriving Repr, DecidableEq
 
-/-- `get_type` (dir_writer.c:59): S_IFMT bits → basic inode type -/
+/-- `get_type` (dir_writer.c:59-74): S_IFMT bits → basic inode type -/
 def getType (mode : Nat) : Option Nat :=
   match mode &&& 0o170000 with
   | 0o140000 => some inodeSocket
@@ -180,8 +180,8 @@ def dirIndexThreshold : Nat := 256
 /-- most index entries an extended directory inode can announce (`inodex_count` is a `sqfs_u16`) -/
 def maxIndex : Nat := 0xFFFF
 
-/-- dir_writer.c:359-430. `dirRef` = position recorded by `sqfs_dir_writer_begin`.  `cap` = number of index
-entries after which the loop at :411 stops: `maxIndex` in the repaired code (fixes/C03-dir-index-count.patch),
+/-- dir_writer.c:363-438. `dirRef` = position recorded by `sqfs_dir_writer_begin`.  `cap` = number of index
+entries after which the loop at :415 stops: `maxIndex` in the repaired code (fixes/C03-dir-index-count.patch),
 unbounded (`none`) in the unrepaired code, where the u16 counter then wraps. -/
 def createInodeCap (cap : Option Nat) (dirRef : Nat) (runs : List Run) (entCount hlinks xattr parent : Nat) : DirInode :=
   let startBlock := dirRef >>> 16
